@@ -187,6 +187,23 @@ func (e *Engine) PackageScans() *UnitResult {
 		}
 		add("lockset.closedworld", []string{"C03"}, len(bad) == 0, "every function that touches lock-guarded state or a mutex is under contract (lockset discipline is checked on all of them)", bad)
 	}
+	// options: every literal of type func(*EventBus) created by a With* function
+	// must be under contract (closed world for the Option callback contract)
+	if len(e.spec.Callbacks) > 0 && e.spec.Callbacks["Option"] != nil {
+		var bad []string
+		for _, fn := range funcs {
+			if fn.Parent() == nil || !strings.HasPrefix(relName(fn), "With") || strings.Count(relName(fn), "$") != 1 {
+				continue
+			}
+			if fn.Signature.Params().Len() != 1 || !strings.HasSuffix(fn.Signature.Params().At(0).Type().String(), ".EventBus") {
+				continue
+			}
+			if fs := e.spec.Funcs[relName(fn)]; fs == nil || fs.Trusted {
+				bad = append(bad, relName(fn))
+			}
+		}
+		add("option.closedworld", []string{"C09", "C01"}, len(bad) == 0, "every Option literal of the package is verified against the Option callback contract", bad)
+	}
 	_ = constant.MakeBool
 	_ = fmt.Sprint
 	return res
